@@ -38,3 +38,91 @@ package sequencer
 //@ loop 0 invariant rangeindex == -1 ==> absticks == 0
 //@ loop 0 invariant rangeindex >= 0 ==> absticks == s.bars[rangeindex].AbsTicks + barTicks(s.bars[rangeindex], s.Ticks)
 //@ loop 0 decreases len(s.bars) - rangeindex
+
+// the order of bars (sort.Sort in mkBarLine): by number
+//@ func (Bars).Len
+//@ ensures result == len(b)
+
+//@ func (Bars).Less
+//@ requires 0 <= a && a < len(br) && 0 <= b && b < len(br) && br[a] != nil && br[b] != nil
+//@ ensures [P:C20] result == (br[a].Number < br[b].Number)
+
+//@ func (Bars).Swap
+//@ requires 0 <= a && a < len(br) && 0 <= b && b < len(br)
+//@ modifies br[:]
+//@ ensures [P:C20] br[a] == old(br[b]) && br[b] == old(br[a]) && forall i int :: (0 <= i && i < len(br) && i != a && i != b) ==> br[i] == old(br[i])
+
+// the time-signature line: the bars are put in order and laid end to end, the events carry the difference to the
+// event before them (the first one its absolute tick) as delta
+//@ func (*Song).mkBarLine
+//@ requires forall i int :: 0 <= i && i < len(s.bars) ==> (s.bars[i] != nil && s.bars[i].TimeSig[1] != 0)
+//@ requires forall i int :: 0 <= i && i < len(s.bars) ==> s.bars[i].Number == i
+//@ modifies s.bars[:], any(Bar).AbsTicks, s.lastTick
+//@ ensures [P:C20] forall i int :: 0 <= i && i < len(evts) ==> evts[i] != nil
+//@ ensures [P:C20] len(evts) > 0 ==> evts[0].Event.Delta == uint32(evts[0].AbsTicks)
+//@ ensures [P:C20] forall i int :: 1 <= i && i < len(evts) ==> evts[i].Event.Delta == uint32(evts[i].AbsTicks - evts[i-1].AbsTicks)
+// every event is a time-signature event; 4/4 is the default: a song in 4/4 throughout has none, a song that
+// starts in another signature has one at tick 0 carrying the numerator of the first bar
+//@ ensures [P:C20] len(evts) <= len(s.bars) && forall i int :: 0 <= i && i < len(evts) ==> (len(evts[i].Event.Message) == 7 && evts[i].Event.Message[0] == 0xFF && evts[i].Event.Message[1] == 0x58)
+//@ ensures [P:C20] (forall k int :: 0 <= k && k < len(s.bars) ==> (s.bars[k].TimeSig[0] == 4 && s.bars[k].TimeSig[1] == 4)) ==> len(evts) == 0
+//@ ensures [P:C20] (len(s.bars) > 0 && !(s.bars[0].TimeSig[0] == 4 && s.bars[0].TimeSig[1] == 4)) ==> (len(evts) >= 1 && evts[0].AbsTicks == 0 && evts[0].Event.Message[3] == s.bars[0].TimeSig[0])
+//@ ensures [P:C20] len(s.bars) == old(len(s.bars)) && forall i int :: 0 <= i && i < len(s.bars) ==> s.bars[i] == old(s.bars[i])
+//@ ensures [P:C20] len(s.bars) > 0 ==> s.bars[0].AbsTicks == 0
+//@ ensures [P:C20] forall i int :: 1 <= i && i < len(s.bars) ==> s.bars[i].AbsTicks == s.bars[i-1].AbsTicks + barTicks(s.bars[i-1], s.Ticks)
+//@ loop 0 invariant -1 <= rangeindex && rangeindex < len(s.bars) && s.bars == old(s.bars) && (len(evts) == 0 || fresh(evts))
+//@ loop 0 invariant forall i int :: 0 <= i && i < len(s.bars) ==> s.bars[i] != nil
+//@ loop 0 invariant forall i int :: 0 <= i && i < len(evts) ==> (evts[i] != nil && fresh(evts[i]))
+//@ loop 0 invariant distinctElems(evts)
+//@ loop 0 invariant len(evts) <= rangeindex + 1 && forall i int :: 0 <= i && i < len(evts) ==> (len(evts[i].Event.Message) == 7 && evts[i].Event.Message[0] == 0xFF && evts[i].Event.Message[1] == 0x58 && ref(evts[i].Event.Message) != addr(timesig))
+//@ loop 0 invariant (forall k int :: 0 <= k && k <= rangeindex ==> (s.bars[k].TimeSig[0] == 4 && s.bars[k].TimeSig[1] == 4)) ==> (len(evts) == 0 && timesig[0] == 4 && timesig[1] == 4)
+//@ loop 0 invariant (rangeindex >= 0 && !(s.bars[0].TimeSig[0] == 4 && s.bars[0].TimeSig[1] == 4)) ==> (len(evts) >= 1 && evts[0].AbsTicks == s.bars[0].AbsTicks && evts[0].Event.Message[3] == s.bars[0].TimeSig[0])
+//@ loop 0 invariant forall k int :: 0 <= k && k < len(s.bars) ==> (s.bars[k].TimeSig[1] != 0 && s.bars[k].TimeSig == old(s.bars[k].TimeSig))
+//@ loop 0 invariant len(s.bars) > 0 ==> s.bars[0].AbsTicks == 0
+//@ loop 0 decreases len(s.bars) - rangeindex
+//@ loop 1 invariant 0 <= i && i <= len(evts)
+//@ loop 1 invariant forall k int :: 0 <= k && k < len(evts) ==> (evts[k] != nil && fresh(evts[k]))
+//@ loop 1 invariant distinctElems(evts)
+//@ loop 1 invariant forall k int :: 0 <= k && k < len(evts) ==> (len(evts[k].Event.Message) == 7 && evts[k].Event.Message[0] == 0xFF && evts[k].Event.Message[1] == 0x58)
+//@ loop 1 invariant (len(s.bars) > 0 && !(s.bars[0].TimeSig[0] == 4 && s.bars[0].TimeSig[1] == 4)) ==> (len(evts) >= 1 && evts[0].AbsTicks == 0 && evts[0].Event.Message[3] == s.bars[0].TimeSig[0])
+//@ loop 1 invariant i == 0 ==> lasttick == 0
+//@ loop 1 invariant i > 0 ==> lasttick == evts[i-1].AbsTicks
+//@ loop 1 invariant i > 0 ==> evts[0].Event.Delta == uint32(evts[0].AbsTicks)
+//@ loop 1 invariant forall k int :: 1 <= k && k < i ==> evts[k].Event.Delta == uint32(evts[k].AbsTicks - evts[k-1].AbsTicks)
+//@ loop 1 decreases len(evts) - i
+
+// the events of one bar as track events: one per event plus one note-off per note with a duration, in tick order,
+// each carrying the difference to the one before it as delta
+//@ func (*Bar).trackEvents
+//@ requires b != nil && forall i int :: 0 <= i && i < len(b.Events) ==> b.Events[i] != nil
+//@ ensures [P:C20] len(b.Events) <= len(evts) && len(evts) <= 2 * len(b.Events)
+//@ ensures [P:C20] forall i int :: 0 <= i && i < len(evts) ==> (evts[i] != nil && fresh(evts[i]))
+//@ ensures [P:C20] distinctElems(evts) && (len(evts) == 0 || fresh(evts))
+//@ ensures [P:C20] forall i int :: 1 <= i && i < len(evts) ==> evts[i-1].AbsTicks <= evts[i].AbsTicks
+// (an end-of-track message among the events of a bar would close the exported track early: none is made up here)
+//@ ensures [P:C20] (forall i int :: 0 <= i && i < len(b.Events) ==> !isEOT(b.Events[i].Message)) ==> forall k int :: 0 <= k && k < len(evts) ==> !isEOT(evts[k].Event.Message)
+//@ ensures [P:C20] len(evts) > 0 ==> evts[0].Event.Delta == uint32(evts[0].AbsTicks)
+//@ ensures [P:C20] forall i int :: 1 <= i && i < len(evts) ==> evts[i].Event.Delta == uint32(evts[i].AbsTicks - evts[i-1].AbsTicks)
+//@ loop 0 invariant -1 <= rangeindex && rangeindex < len(b.Events) && (len(evts) == 0 || fresh(evts))
+//@ loop 0 invariant rangeindex + 1 <= len(evts) && len(evts) <= 2 * (rangeindex + 1)
+//@ loop 0 invariant forall i int :: 0 <= i && i < len(b.Events) ==> b.Events[i] != nil
+//@ loop 0 invariant forall i int :: 0 <= i && i < len(evts) ==> (evts[i] != nil && fresh(evts[i]))
+//@ loop 0 invariant distinctElems(evts)
+//@ loop 0 invariant (forall i int :: 0 <= i && i < len(b.Events) ==> !isEOT(b.Events[i].Message)) ==> forall k int :: 0 <= k && k < len(evts) ==> !isEOT(evts[k].Event.Message)
+//@ loop 0 decreases len(b.Events) - rangeindex
+//@ loop 1 invariant 0 <= i && i <= len(evts) && (len(evts) == 0 || fresh(evts))
+//@ loop 1 invariant forall k int :: 0 <= k && k < len(evts) ==> (evts[k] != nil && fresh(evts[k]))
+//@ loop 1 invariant distinctElems(evts)
+//@ loop 1 invariant (forall i int :: 0 <= i && i < len(b.Events) ==> !isEOT(b.Events[i].Message)) ==> forall k int :: 0 <= k && k < len(evts) ==> !isEOT(evts[k].Event.Message)
+//@ loop 1 invariant forall k int :: 1 <= k && k < len(evts) ==> evts[k-1].AbsTicks <= evts[k].AbsTicks
+//@ loop 1 invariant i == 0 ==> lasttick == 0
+//@ loop 1 invariant i > 0 ==> lasttick == evts[i-1].AbsTicks
+//@ loop 1 invariant i > 0 ==> evts[0].Event.Delta == uint32(evts[0].AbsTicks)
+//@ loop 1 invariant forall k int :: 1 <= k && k < i ==> evts[k].Event.Delta == uint32(evts[k].AbsTicks - evts[k-1].AbsTicks)
+//@ loop 1 decreases len(evts) - i
+
+// ToSMF0 / ToSMF1 are not under contract. ToSMF1 ranges over a map. ToSMF0 hands freshly made messages to
+// smf.(*Track).Add, whose contract describes the appended events in the caller's unchanged element heap (it
+// does not declare the reallocated backing array as fresh); with messages newer than that heap the
+// assumptions contradict the heap's well-formedness axiom, every obligation after the first Add would hold
+// vacuously (found by the vacuity guard that includes the quantified facts), and with the array declared
+// fresh the loops of ConvertToSMF1 no longer verify within the time limit. Left out rather than claimed.
